@@ -228,7 +228,7 @@ type rcase struct {
 	Tpl []string `json:"tpl"`
 }
 
-var symText = map[string]string{"{": "{", "}": "}", "\\": "\\", "t": "t", "M": "method", ">H": ">X-In", "?q": "?q", "~c": "~c", "U": "nosuch", "G": "GET"}
+var symText = map[string]string{"{": "{", "}": "}", "\\": "\\", "t": "t", "M": "method", ">H": ">X-In", "?q": "?q", "~c": "~c", "U": "nosuch", "G": "GET", "%": "%s"}
 
 func render(syms []string) string {
 	var b strings.Builder
@@ -256,7 +256,7 @@ func fill(tpl []string, v, vc, marker string) string {
 	return b.String()
 }
 
-var advValues = [][]string{{"t"}, {"{", "M", "}"}, {"{", ">H", "}"}, {"{", "U", "}"}, {"\\", "{"}, {"}"}, {"{"}, {"t", "\\"}}
+var advValues = [][]string{{"t"}, {"{", "M", "}"}, {"{", ">H", "}"}, {"{", "U", "}"}, {"\\", "{"}, {"}"}, {"{"}, {"t", "\\"}, {"%"}}
 
 const sentinel = "]"
 const nLogFmt = 6 // formats per site that are also used as log formats
@@ -344,7 +344,7 @@ func runRepl(scratch string, cs []rcase, values [][]string, corrupt bool) (int, 
 }
 
 func randValue(rnd *rand.Rand) []string {
-	syms := []string{"{", "}", "\\", "t", "M", ">H", "?q", "~c", "U"}
+	syms := []string{"{", "}", "\\", "t", "M", ">H", "?q", "~c", "U", "%"}
 	n := 1 + rnd.Intn(6)
 	v := make([]string, n)
 	for i := range v {
